@@ -19,15 +19,22 @@ import (
 func TestVerif_C04_LeaseSchedules(t *testing.T) {
 	seed := kit.Seed(4)
 	shard, _ := kit.Shard()
-	r := kit.NewResult(t, "c04-lease-schedules", seed, "one or two leased reads presenting token p (or p's child) run concurrently with a revocation of p (revoke, revoke-self, revoke-accessor, revoke of p's parent, sync lease revoke) under the storage-operation gate (gate points: sys/token/*, sys/expire/*): interleavings with <=2 preemptions (capped) and seeded PCT schedules; when the revocation reported success the token must be dead and every lease a read RETURNED must be gone or due (a read may instead be refused or its lease withheld); a schedule is non-trivial when the requests overlapped and a lease was returned; distinct by (scenario, op-order hash)")
+	r := kit.NewResult(t, "c04-lease-schedules", seed, "one or two leased reads presenting token p (or p's child; or p a non-expiring root-policy token with 3 uses), or renewals by root of leases p already holds, run concurrently with a revocation of p (revoke, revoke-self, revoke-accessor, revoke of p's parent, sync lease revoke) under the storage-operation gate (gate points: sys/token/*, sys/expire/*): interleavings with <=2 preemptions (capped) and seeded PCT schedules; when the revocation reported success the token must be dead and every lease a read RETURNED must be gone or due (a read may instead be refused or its lease withheld); a schedule is non-trivial when the requests overlapped and a lease was returned; distinct by (scenario, op-order hash)")
 	defer r.Write(t)
 	scen := []struct {
 		name   string
 		reads  int
-		reader string // parent | child
+		reader string // parent | child | renewer (root renews a lease the parent already holds) | limited (the parent is a non-expiring root-policy token with 3 uses)
 		revoke string // revoke | self | accessor | grand | lease
 		ns     string
 	}{
+		{"renew|revoke", 1, "renewer", "revoke", ""},
+		{"2renew|revoke-accessor", 2, "renewer", "accessor", ""},
+		{"renew|revoke-grand", 1, "renewer", "grand", ""},
+		{"renew|revoke@ns1", 1, "renewer", "revoke", "ns1/"},
+		{"limitedread|revoke", 1, "limited", "revoke", ""},
+		{"2limitedread|revoke-accessor", 2, "limited", "accessor", ""},
+		{"limitedread|revoke-self", 1, "limited", "self", ""},
 		{"read|revoke", 1, "parent", "revoke", ""},
 		{"2read|revoke", 2, "parent", "revoke", ""},
 		{"read|revoke-self", 1, "parent", "self", ""},
@@ -49,11 +56,27 @@ func TestVerif_C04_LeaseSchedules(t *testing.T) {
 				if err != nil {
 					t.Fatalf("fixture: %v", err)
 				}
-				parent, err := m.create(grand, grand.ID, false, sc.ns, "")
+				var parent *c04Tok
+				if sc.reader == "limited" {
+					// a use-limited token that never expires: nothing but the revocation ends it
+					m.nextData = map[string]any{"policies": []string{"root"}, "num_uses": 3, "ttl": "0"}
+					parent, err = m.create(nil, v.Root, false, sc.ns, "")
+				} else {
+					parent, err = m.create(grand, grand.ID, false, sc.ns, "")
+				}
 				if err != nil {
 					t.Fatalf("fixture: %v", err)
 				}
 				reader := parent
+				var held []string
+				if sc.reader == "renewer" {
+					for ci := 0; ci < sc.reads; ci++ {
+						if err := m.addLease(parent); err != nil {
+							t.Fatalf("fixture: %v", err)
+						}
+					}
+					held = append(held, parent.Leases...)
+				}
 				if sc.reader == "child" {
 					if reader, err = m.create(parent, parent.ID, false, sc.ns, ""); err != nil {
 						t.Fatalf("fixture: %v", err)
@@ -81,6 +104,14 @@ func TestVerif_C04_LeaseSchedules(t *testing.T) {
 				for ci := 0; ci < sc.reads; ci++ {
 					ci := ci
 					reqs = append(reqs, kit.Req{Tag: fmt.Sprintf("c%d", ci), Fn: func() {
+						if sc.reader == "renewer" {
+							resp, err := v.Do(vReq{Op: logical.UpdateOperation, Path: "sys/leases/renew", Token: v.Root, Data: map[string]any{"lease_id": held[ci], "increment": "30m"}, NS: sc.ns})
+							rr[ci].res = vErrStr(resp, err)
+							if vOK(resp, err) {
+								r.Count("renewals_reported_success_next_to_revocation", 1)
+							}
+							return
+						}
 						resp, err := v.Do(vReq{Op: logical.ReadOperation, Path: "c04kv/item", Token: reader.ID, NS: sc.ns})
 						rr[ci].res = vErrStr(resp, err)
 						if vOK(resp, err) && resp != nil && resp.Secret != nil {
@@ -114,7 +145,7 @@ func TestVerif_C04_LeaseSchedules(t *testing.T) {
 					r.Count("revoke_reported_failure", 1)
 					return sched, true
 				}
-				if sc.revoke == "grand" {
+				if sc.revoke == "grand" && sc.reader != "limited" {
 					m.killTree(grand)
 				} else {
 					m.killTree(parent)
@@ -133,7 +164,13 @@ func TestVerif_C04_LeaseSchedules(t *testing.T) {
 				}
 				if sched.Overlap() {
 					r.Count("overlapping_schedules", 1)
-					if returned > 0 {
+					if sc.reader == "renewer" {
+						r.Count("overlapping_renew_schedules", 1)
+					}
+					if sc.reader == "limited" {
+						r.Count("overlapping_use_limited_schedules", 1)
+					}
+					if returned > 0 || sc.reader == "renewer" {
 						r.Nontrivial(sc.name + sched.Hash())
 					}
 				}
@@ -175,4 +212,6 @@ func TestVerif_C04_LeaseSchedules(t *testing.T) {
 	}
 	r.Require("overlapping_schedules", 100)
 	r.Require("leases_returned_by_concurrent_reads", 60)
+	r.Require("overlapping_renew_schedules", 30)
+	r.Require("overlapping_use_limited_schedules", 30)
 }
